@@ -1,7 +1,7 @@
 #!/bin/sh
-# evaluate every seeded change found under /tmp/seed_out (sequentially; one worktree build each)
+# evaluate every seeded change found under $SEED_OUT (default /tmp/seed_out) (sequentially; one worktree build each)
 cd /verif
-for d in /tmp/seed_out/C*/[AB]; do
+for d in ${SEED_OUT:-/tmp/seed_out}/C*/[A-Z]; do
   pid=$(basename $(dirname $d)); x=$(basename $d)
   [ -f "$d/patch.diff" ] || continue
   [ -f "/verif/seeded/$pid-$x/meta.json" ] && continue
